@@ -123,6 +123,33 @@ pub fn complete(big: bool) {
     kani::cover!(len == 3, "c18.complete reachable (3 bytes)");
 }
 
+/// encode into a sink that accepts only part of what it is offered at each call
+/// (which `std::io::Write::write` allows): the call still returns `Ok(l)` with all
+/// `l` bytes of the definition in the sink, in order
+pub fn short_sink(big: bool, generic: bool) {
+    use crate::ghost::ShortWrite;
+    let n: u64 = kani::any();
+    let mut sink = ShortWrite::<10>::new();
+    let r = match (big, generic) {
+        (true, false) => vbyte_write_be(n, &mut sink),
+        (false, false) => vbyte_write_le(n, &mut sink),
+        (true, true) => vbyte_write::<BE, _>(n, &mut sink),
+        (false, true) => vbyte_write::<LE, _>(n, &mut sink),
+    };
+    let j: usize = kani::any();
+    match r {
+        Ok(l) => {
+            kani::assert(l == spec::vbyte_len(n), "OBS c18.short_sink: Ok carries the length of the codeword");
+            kani::assert(sink.len == l, "OBS c18.short_sink: Ok means every byte of the codeword reached the sink (short writes are continued)");
+            if j < l {
+                kani::assert(sink.len == l && sink.sink[j] == spec::vbyte_byte(n, big, j), "OBS c18.short_sink: the sink received the bytes of the definition in order");
+            }
+        }
+        Err(_) => kani::assert(false, "OBS c18.short_sink: a sink that makes progress at every call never causes an error"),
+    }
+    kani::cover!(r.is_ok() && sink.calls >= 3, "c18.short_sink reachable (Ok after short writes)");
+}
+
 macro_rules! h {
     ($name:ident, $body:expr) => {
         #[kani::proof]
@@ -136,5 +163,9 @@ h!(write_read_be, write_read(true, false));
 h!(write_read_le, write_read(false, false));
 h!(write_read_generic_be, write_read(true, true));
 h!(write_read_generic_le, write_read(false, true));
+h!(short_sink_be, short_sink(true, false));
+h!(short_sink_le, short_sink(false, false));
+h!(short_sink_generic_be, short_sink(true, true));
+h!(short_sink_generic_le, short_sink(false, true));
 h!(complete_be, complete(true));
 h!(complete_le, complete(false));
